@@ -212,6 +212,11 @@ def transformNonFinite (q : PsmRec) : Bool :=
     && q.peptideLen != 0 && q.alignedRt.isFinite && q.ims.isFinite
     && !q.deltaRtModel.isNaN && !q.deltaImsModel.isNaN)
 
+/-- is this a value that only `clamp(0.001, 0.999)` keeps from making `sqrt` non-finite (±inf or
+    negative; a NaN passes through the clamp and is NOT guarded) -/
+def guardedClamp (x : Float32) : Bool :=
+  !x.isNaN && (!x.isFinite || decide (x.toFloat < 0.0))
+
 /-- independent f64 evaluation of `ln_1p` on an f32 argument (Kahan's correction) -/
 def ln1pRef (x32 : Float32) : Float32 :=
   let x := x32.toFloat
@@ -285,11 +290,22 @@ def handleScorePsms (args impl : List String) : Option Reply := do
           && closeF64 (ln1pRef64 (Float.ofNat q.peptideLen)) a.lnPeptideLen 16)
       if badLn || badLn64 then "bad:ln1p_value" else
       if fitted && (nd == 0 || nt == 0 || ps.any transformNonFinite) then "bad:fitted_despite_unfittable_input" else
+      -- the guards of the feature transform: a value they replace (poisson whose ln_1p(-poisson) is not
+      -- finite -> 3.5; delta_rt/ims_model outside [0.001, 0.999], incl. ±inf -> clamped) must not keep a
+      -- fittable set from being fitted. `fit` is the model's run WITH the guards (theorem
+      -- featureRow_finite); this clause is NOT `na` for non-finite inputs.
+      let guardedField (q : PsmRec) : Bool :=
+        !(ln1pFinite (-q.poisson)) || guardedClamp q.deltaRtModel || guardedClamp q.deltaImsModel
+      let fittableGuarded := ps.any guardedField &&
+        (match fit with | some sc => sc.all Float32.isFinite | none => false)
+      if fittableGuarded && !(fitted && scores.all Float32.isFinite) then "bad:nonfinite_feature_not_guarded" else
       if !(scores.all Float32.isFinite) then
         (if fitted then "bad:nonfinite_score_fitted"
-         -- the fallback's domain (theorem fallback_finite): poisson finite and ≤ 0, longest_y_pct finite;
-         -- scoring.rs can no longer produce poisson = -inf (repaired in /repo)
-         else if ps.all (fun q => q.poisson.isFinite && decide (q.poisson ≤ 0.0) && q.longestYPct.isFinite)
+         -- the fit legitimately failed: the fallback is judged on its domain, record by record (theorem
+         -- fallback_finite: poisson finite and ≤ 0, longest_y_pct finite); a non-finite fallback score of
+         -- a record whose poisson is outside the domain is `na` (scoring.rs no longer produces -inf)
+         else if (ps.zip scores).any (fun (q, sc) => !sc.isFinite &&
+                   q.poisson.isFinite && decide (q.poisson ≤ 0.0) && q.longestYPct.isFinite)
            then "bad:nonfinite_fallback" else "na") else
       if fitted then
         let sumT := ((ps.zip scores).filter fun (q, _) => q.label != -1).foldl (fun a (_, s) => a + f32Q s) (0 : Rat)
